@@ -74,7 +74,9 @@ Definition tr_hdrs (l : list (N * (hdr * cproof))) : tr :=
   TL (map (fun x => TL [TN (fst x); TB (hd_hash (fst (snd x))); TB (hd_prev (fst (snd x)));
                         TB (vs_pkh (hd_next (fst (snd x)))); TB (vs_vph (hd_next (fst (snd x))));
                         TL (map TN (vs_keys (hd_next (fst (snd x))))); TL (map TN (vs_pows (hd_next (fst (snd x)))));
-                        tr_cproof (snd (snd x)); TN (if vs_ok (hd_next (fst (snd x))) then 1 else 0)])
+                        tr_cproof (snd (snd x)); TN (if vs_ok (hd_next (fst (snd x))) then 1 else 0);
+                        TL [TB (vs_pkh (hd_vals (fst (snd x)))); TB (vs_vph (hd_vals (fst (snd x))));
+                            TL (map TN (vs_keys (hd_vals (fst (snd x))))); TL (map TN (vs_pows (hd_vals (fst (snd x)))))]])
           (fold_right insert_hd [] l)).
 
 Definition observe (s : kstate) : tr :=
